@@ -341,6 +341,8 @@ class DnsRrTypePrivate(NumericRangeParsableBase):
 
 @attr.s
 class DnsNameUncompressed(ParsableBase, Serializable):
+    LABEL_SIZE_MAX = 63
+
     labels = attr.ib(
         validator=attr.validators.deep_iterable(member_validator=attr.validators.instance_of(six.string_types))
     )
@@ -369,6 +371,9 @@ class DnsNameUncompressed(ParsableBase, Serializable):
 
         labels = []
         while True:
+            if parser.unparsed_length and six.indexbytes(parser.unparsed, 0) > cls.LABEL_SIZE_MAX:
+                raise InvalidValue(six.indexbytes(parser.unparsed, 0), cls, 'label_length')
+
             parser.parse_string('label', 1, encoding='idna')
             label = parser['label']
 
